@@ -289,6 +289,7 @@ class Executor:
                 (env[p.arg], _), = self.eval(d, env, pc)
         if isinstance(node, ast.Lambda):
             return [Outcome("return", v, p) for v, p in self.eval(node.body, env, pc)]
+        env["__assigned__"] = frozenset(env.get("__assigned__", ())) | _assigned_names(node)
         outs = self.exec_block(node.body, env, pc)
         res = []
         for o in outs:
@@ -487,6 +488,9 @@ class Executor:
             return [({"True": True, "False": False, "None": None}[e.id], pc)]
         if e.id in PY_BUILTINS:
             return [(Builtin(e.id), pc)]
+        if e.id in env.get("__assigned__", ()):
+            # python semantics: a local that is assigned somewhere in the function but not on this path
+            raise PyRaise("UnboundLocalError", f"cannot access local variable '{e.id}' where it is not associated with a value")
         raise Unsupported(f"unknown name {e.id}")
 
     def e_Tuple(self, e, env, pc):
@@ -975,6 +979,14 @@ class Executor:
 
 
 MISSING = object()
+
+
+def _assigned_names(fn):
+    out = set()
+    for n in ast.walk(fn):
+        if isinstance(n, ast.Name) and isinstance(n.ctx, ast.Store):
+            out.add(n.id)
+    return frozenset(out)
 
 
 def _load(t):
